@@ -95,6 +95,11 @@ var genesisMode = false
 // before failing (op 9: must leave no trace) and rebuilds of all keeper objects over the same stores
 // (op 10: a process restart; must change nothing)
 var detMode = false
+
+// blocksMode (C05): blocks run on a cache-wrapped multistore under a watchdog; histories contain bursts
+// of 60-110 transfers written in one block, batches that time out with all their transfers, expiries
+// next to many dirty pool entries
+var blocksMode = false
 var lastCaseHashes []string
 var lastCaseShadowDiff = -1
 
@@ -156,7 +161,7 @@ func runHubCase(seed uint64, nOps int, hostile bool, gov bool, restart bool, sta
 	for i := 0; i < nVals; i++ {
 		env.Staking.Vals = append(env.Staking.Vals, ValIn{Oper: valAddr(i), Power: powers[i], Bonded: true})
 	}
-	run := &HubRun{env: env, chains: allChains, nextNonce: map[string]uint64{}, voter: sdk.AccAddress(valAddr(0))}
+	run := &HubRun{env: env, chains: allChains, nextNonce: map[string]uint64{}, voter: sdk.AccAddress(valAddr(0)), deliver: blocksMode}
 
 	holders := map[string]*big.Int{}
 	prices := map[string]sdk.Dec{}
@@ -203,10 +208,21 @@ func runHubCase(seed uint64, nOps int, hostile bool, gov bool, restart bool, sta
 		shadow = &HubRun{env: env2, chains: allChains, nextNonce: map[string]uint64{}, voter: run.voter}
 	}
 	var ops, outs []V
+	deadlocked := false
 	do := func(op *HubOp) int64 {
+		if deadlocked {
+			return 3
+		}
 		opv := op.val(env) // before exec: env op reads the signer set
 		code, _ := run.exec(op)
 		ops = append(ops, opv)
+		if code == 3 {
+			// the store is blocked: it cannot be observed any more, the history ends here
+			deadlocked = true
+			outs = append(outs, L(I(3), L()))
+			stats[fmt.Sprintf("op%d_code3", op.Kind)]++
+			return 3
+		}
 		outs = append(outs, L(I(code), observeHub(env, allChains)))
 		if detMode {
 			lastCaseHashes = append(lastCaseHashes, env.StateHash())
@@ -215,6 +231,9 @@ func runHubCase(seed uint64, nOps int, hostile bool, gov bool, restart bool, sta
 			if lastCaseShadowDiff < 0 && (code2 != code || Str(observeHub(shadow.env, allChains)) != Str(observeHub(env, allChains))) {
 				lastCaseShadowDiff = len(ops) - 1
 			}
+		}
+		if code == 3 {
+			deadlocked = true
 		}
 		stats[fmt.Sprintf("op%d_code%d", op.Kind, code)]++
 		return code
@@ -264,6 +283,7 @@ func runHubCase(seed uint64, nOps int, hostile bool, gov bool, restart bool, sta
 
 	// funding block: a few deposits applied by the first EndBlocker
 	funding := 2 + rng.Intn(4)
+	burstsLeft := 3
 	lastCaseHashes = nil
 	for len(ops) < nOps {
 		if detMode && rng.Chance(1, 10) {
@@ -279,6 +299,67 @@ func runHubCase(seed uint64, nOps int, hostile bool, gov bool, restart bool, sta
 				do(&HubOp{Kind: 9, Tokens: mut})
 			} else {
 				do(&HubOp{Kind: 10})
+			}
+			continue
+		}
+		if deadlocked {
+			break
+		}
+		if blocksMode && inBlock && funding == 0 && burstsLeft > 0 && rng.Chance(1, 6) {
+			burstsLeft--
+			// a burst: many small transfers of one token to one chain, all written in this block
+			ch := []string{"ethereum", "bsc", "minter"}[rng.Intn(3)]
+			ts := tokensOn(ch)
+			if len(ts) > 0 {
+				t := ts[rng.Intn(len(ts))]
+				u := rng.Intn(3)
+				if env.Bank.GetBalance(env.Ctx, userAddr(u), t.Denom).Amount.BigInt().Cmp(pow10(9)) > 0 {
+					nb := 60 + rng.Intn(51)
+					burst := func() {
+						for i := 0; i < nb && !deadlocked; i++ {
+							txCounter++
+							do(&HubOp{Kind: 1, Sender: userAddr(u).String(), Chain: ch, Recipient: ethAddrOf(0xe0, rng.Intn(3)), Denom: t.Denom,
+								Amount: big.NewInt(int64(100000 + rng.Intn(1000))), Fee: big.NewInt(int64(rng.Intn(5))), TxBytes: []byte(fmt.Sprintf("tx%d", txCounter))})
+						}
+					}
+					newBlock := func(dt int64) {
+						height++
+						timeMs += dt
+						do(&HubOp{Kind: 5, Height: height, TimeMs: timeMs})
+					}
+					burst()
+					stats["bursts"]++
+					switch rng.Intn(3) {
+					case 0: // batch them, let the whole batch time out: the BeginBlocker of an even height puts them all back and batches again
+						if ch != "minter" {
+							do(&HubOp{Kind: 3, Chain: ch, Denom: t.Denom, Sender: userAddr(u).String()})
+							do(&HubOp{Kind: 6})
+							newBlock(5000)
+							n, h := nextEvent(ch)
+							extHeight[ch] = h + 1000000
+							do(&HubOp{Kind: 4, Chain: ch, Ev: &HubEvent{Kind: 4, Nonce: n, Height: h + 1000000}})
+							do(&HubOp{Kind: 6})
+							newBlock(5000)
+							if height%2 != 0 && !deadlocked {
+								do(&HubOp{Kind: 6})
+								newBlock(5000)
+							}
+							stats["burst_batch_timeout"]++
+						}
+					case 1: // let them expire next to a second burst written in the expiry block
+						do(&HubOp{Kind: 6})
+						newBlock(62000)
+						if !deadlocked {
+							burst()
+						}
+						if !deadlocked {
+							do(&HubOp{Kind: 6})
+							inBlock = false
+						}
+						stats["burst_expiry"]++
+					default:
+					}
+				}
 			}
 			continue
 		}
@@ -532,11 +613,6 @@ func runHubCase(seed uint64, nOps int, hostile bool, gov bool, restart bool, sta
 		// genesis export / import at the block boundary that ends the history
 		do(&HubOp{Kind: 8})
 	}
-	var tv []V
-	for _, t := range env.K.GetTokenInfos(env.Ctx).TokenInfos {
-		_ = t
-	}
-	_ = tv
 	pv := L(L(B("ethereum"), B("minter"), B("bsc"), B("hub")), U(params.AverageBlockTime), U(params.AverageEthereumBlockTime),
 		U(params.AverageBscBlockTime), U(params.TargetEthTxTimeout), U(params.OutgoingTxTimeout), B(types.TempAddress.String()))
 	return L(pv, L(), L(ops...)), L(outs...)
